@@ -943,4 +943,16 @@ def Pre_shapeArray (s : List Nat) : Prop := (s.filter fun e => e != 1).length â‰
 instance (s : List Nat) : Decidable (Pre_shapeArray s) := by unfold Pre_shapeArray; infer_instance
 
 
+/-- `tensor.tenfun(f, *others)`: a function of one argument (the stacked operands) takes any number of operands, a
+function of two arguments exactly one; nothing else is a request -/
+def Pre_tenfunArity (nargs others : Nat) : Prop := nargs = 1 âˆ¨ (nargs = 2 âˆ§ others = 1)
+
+instance (a o : Nat) : Decidable (Pre_tenfunArity a o) := by unfold Pre_tenfunArity; infer_instance
+
+/-- `S[subs] = value` with an array of subscripts: a row names every mode (more columns than modes is growth on
+assignment, property C04; fewer is not a request) -/
+def Pre_setSubsWidth (N width : Nat) : Prop := N â‰¤ width
+
+instance (n w : Nat) : Decidable (Pre_setSubsWidth n w) := by unfold Pre_setSubsWidth; infer_instance
+
 end Pyttb
